@@ -1154,7 +1154,25 @@ def c17(ctx):
                         good = True
                     elif loose is not None and edom(fn, loose, bb) and good is not True:
                         good = 'nonstrict'
-        if good is True:
+        # one test licenses one thread: a push that can be reached again without passing the bound test in between adds a batch under a
+        # single test, and only the first of them is covered by it
+        if good is True and t['target'] is not None and bb in fn.reachable_blocks(t['target']):
+            cmps_ = set()
+            for b2, blk in enumerate(fn.blocks):
+                tt = blk['term']
+                if tt and tt['k'] == 'switch' and not blk['cleanup']:
+                    for s in blk['stmts']:
+                        if s['k'] == 'assign' and s['rv']['k'] == 'binop' and s['rv']['op'] in ('Lt', 'Gt', 'Le', 'Ge'):
+                            a_ = render(fn.expr_of_operand(s['rv']['a']))
+                            b_ = render(fn.expr_of_operand(s['rv']['b']))
+                            if ('len(' in a_ and 'threads' in a_ and 'max_threads' in b_) or ('len(' in b_ and 'threads' in b_ and 'max_threads' in a_):
+                                if not _has_arith(fn.expr_of_operand(s['rv']['a'])) and not _has_arith(fn.expr_of_operand(s['rv']['b'])):
+                                    cmps_.add(b2)
+            if not fn.must_pass(t['target'], {bb}, cmps_):
+                good = 'batch'
+        if good == 'batch':
+            out.append(bad(R, key, 'several pool threads can be added after a single `threads.len() < max_threads` test (the push sits in a loop that does not re-test the bound): the table can grow past the maximum', loc=fn.loc(bb), fn=fn.name))
+        elif good is True:
             out.append(ok(R, key, 'dominated by the true edge of `threads.len() < max_threads`, tested under the same threads lock', loc=fn.loc(bb), fn=fn.name))
         elif good == 'nonstrict':
             out.append(bad(R, key, 'the bound is tested with `<=`: the pool can grow to max + 1', loc=fn.loc(bb), fn=fn.name))
@@ -2313,4 +2331,76 @@ def c11_sleep(ctx):
             out.append(bad(R, key, 'the poll function answers "still waiting" on a path where nobody holds its waker (the input was not Pending and no back-pressure registration): the pipe is never polled again and the remaining items are lost', loc=k.loc(badb[0]), fn=k.name))
         else:
             out.append(ok(R, key, 'every "still waiting" result lies on the Pending edge of the input poll%s' % (' or after parking the waker in the back-pressure slot' if parks else ''), fn=k.name))
+    return out
+
+
+def rs_cycle(ctx):
+    """No strong reference cycle among the crate's own types: a value that (through its fields, through Arc / Box / Mutex / Option / Vec, not
+    through Weak) can own another value of its own type is never freed by reference counting.  The pipes shut down purely by reference
+    counting (a finished or abandoned pipe releases its context, and with it the input stream, the closure and the target), so a cycle
+    through PipeContext / PipeWaker / PipeStreamCore keeps all of that alive for ever."""
+    import re
+    F = ctx.F
+    out = []
+    names = set(F.adts)
+
+    def strip_weak(ty):
+        res = ''
+        i = 0
+        while i < len(ty):
+            m = re.match(r'(alloc::sync::Weak|alloc::rc::Weak|std::sync::Weak)<', ty[i:])
+            if m:
+                depth = 0
+                j = i + len(m.group(0)) - 1
+                while j < len(ty):
+                    if ty[j] == '<':
+                        depth += 1
+                    elif ty[j] == '>':
+                        depth -= 1
+                        if depth == 0:
+                            break
+                    j += 1
+                i = j + 1
+                continue
+            res += ty[i]
+            i += 1
+        return res
+    edges = {}
+    for name, adt in F.adts.items():
+        if not name.startswith('desync::'):
+            continue
+        for v in adt['variants']:
+            for f_ in v['fields']:
+                ty = strip_weak(clean_ty(f_['ty']))
+                for m in re.finditer(r'desync::[A-Za-z_][A-Za-z0-9_]*', ty):
+                    tgt = m.group(0)
+                    if tgt in names:
+                        edges.setdefault(name, {}).setdefault(tgt, f_['name'])
+    # cycles (including self-loops) by DFS
+    cycles = []
+    state = {}
+
+    def dfs(n, path):
+        state[n] = 1
+        for t_ in sorted(edges.get(n, {})):
+            if state.get(t_) == 1:
+                cyc = path[path.index(t_):] + [t_] if t_ in path else [n, t_]
+                cycles.append(cyc)
+            elif state.get(t_) is None:
+                dfs(t_, path + [t_])
+        state[n] = 2
+    for n in sorted(edges):
+        if state.get(n) is None:
+            dfs(n, [n])
+    n_edges = sum(len(v) for v in edges.values())
+    if cycles:
+        for cyc in cycles[:3]:
+            desc = ' -> '.join('%s' % c.split('::')[-1] for c in cyc)
+            flds = ', '.join('%s.%s' % (a.split('::')[-1], edges[a][b]) for a, b in zip(cyc, cyc[1:]) if b in edges.get(a, {}))
+            out.append(bad('RS-cycle', '|'.join(c.split('::')[-1] for c in sorted(set(cyc))), 'strong ownership cycle %s (fields %s): none of these values is ever freed by reference counting, and what they hold '
+                           '(input stream, processing closure, target object, wakers) lives for ever' % (desc, flds)))
+    else:
+        out.append(ok('RS-cycle', 'acyclic', 'the strong ownership graph of the crate\'s types (%d edges) has no cycle' % n_edges))
+    if n_edges < 10:
+        out.append(undecided('RS-cycle', 'floor', 'only %d ownership edges found between the crate\'s types' % n_edges))
     return out
